@@ -799,9 +799,10 @@ def str_method(interp, s, name, args, kwargs):
                     hi -= 1
             return mk(BStr(chars[lo:hi]))
         zs = zstr(s)
-        a = ctx.fresh("strip.l", z3.StringSort())
-        b = ctx.fresh("strip.r", z3.StringSort())
-        r = ctx.fresh("strip.m", z3.StringSort())
+        # the result is a function of s (same term for repeated calls); a, b are the stripped margins
+        a = sym.ufun("str_" + name + "_left", z3.StringSort(), z3.StringSort())(zs)
+        b = sym.ufun("str_" + name + "_right", z3.StringSort(), z3.StringSort())(zs)
+        r = sym.ufun("str_" + name, z3.StringSort(), z3.StringSort())(zs)
         ctx.assume(zs == z3.Concat(a, r, b))
         ws_star = z3.Star(WS)
         if name in ("strip", "lstrip"):
